@@ -288,24 +288,6 @@ Qed.
 Ltac expl := unfold content, set_ctx, set_back, set_co, set_cin, set_min, set_sto, set_rin, set_vin, set_vb, set_oc,
                     set_lbub, set_odir, set_ids; cbn; recs; cbn.
 
-Lemma note_ids_Inv rs ms s : Inv s -> Inv (note_ids rs ms s).
-Proof.
-  intros [A B C D E G H I J K]. unfold note_ids. constructor; cbn; try assumption.
-  - intros r m Hs. apply in_or_app. destruct (existsb (Z.eqb m) ms) eqn:Em.
-    + left. apply memz_In. exact Em.
-    + right. apply filter_In. split; [apply (I r m Hs)|rewrite Em; reflexivity].
-  - intros m r Hb. apply in_or_app. destruct (existsb (Z.eqb r) rs) eqn:Em.
-    + left. apply memz_In. exact Em.
-    + right. apply filter_In. split; [apply (J m r Hb)|rewrite Em; reflexivity].
-  - intros r Hr. apply in_or_app. destruct (existsb (Z.eqb r) rs) eqn:Em.
-    + left. apply memz_In. exact Em.
-    + right. apply filter_In. split; [apply (K r Hr)|rewrite Em; reflexivity].
-Qed.
-Lemma note_ids_mids rs ms s m : In m ms -> In m (mids (note_ids rs ms s)).
-Proof. intros H. unfold note_ids; cbn. apply in_or_app. left. exact H. Qed.
-Lemma note_ids_rids rs ms s r : In r rs -> In r (rids (note_ids rs ms s)).
-Proof. intros H. unfold note_ids; cbn. apply in_or_app. left. exact H. Qed.
-
 Lemma fold_assoc_nonzero (st0 : list (Z * Qc)) m : forall acc,
   fold_left (fun a mc => if fst mc =? m then snd mc else a) st0 acc <> acc -> In m (map fst st0).
 Proof.
@@ -315,14 +297,11 @@ Proof.
   - right. apply (IH acc). exact H.
 Qed.
 
-Lemma new_rxn_Inv s r l u st0 : Inv s -> Inv (fst (step s (NewRxn r l u st0))).
+Lemma new_rxn_Inv s r l u st0 :
+  Inv s -> (forall m, In m (map fst st0) -> In m (mids s)) -> Inv (fst (step s (NewRxn r l u st0))).
 Proof.
-  intros HI. cbn [step]. destruct (rin s r) eqn:Er; [exact HI|]. cbn [fst].
-  pose proof (note_ids_Inv [r] (map fst st0) s HI) as H0.
-  set (s0 := note_ids [r] (map fst st0) s) in *.
-  assert (Er0 : rin s0 r = false) by exact Er.
-  assert (Hm : forall m, In m (map fst st0) -> In m (mids s0)) by (intros m Hm; apply note_ids_mids; exact Hm).
-  clearbody s0. destruct H0 as [A B C D E G H I J K].
+  intros HI Hm. cbn [step]. destruct (rin s r) eqn:Er0; [exact HI|]. cbn [fst].
+  destruct HI as [A B C D E G H I J K].
   expl. constructor; cbn; try assumption.
   - intros r0 Hr0. assert (r0 <> r) by congruence. rewrite !upd_other by assumption. apply B. exact Hr0.
   - intros m r0. destruct (Z.eqb_spec r0 r) as [E0|Hne]; [subst r0|].
@@ -390,8 +369,7 @@ Qed.
 (* Model.add_metabolites([Metabolite(m)]) with a fresh object *)
 Lemma add_met_Inv s m : Inv s -> Inv (fst (step s (AddMet m))).
 Proof.
-  intros HI. cbn [step]. pose proof (note_ids_Inv [] [m] s HI) as H0.
-  set (s0 := note_ids [] [m] s) in *. clearbody s0.
+  intros H0. cbn [step]. set (s0 := s) in *. clearbody s0.
   destruct (min s0 m) eqn:Em; [exact H0|]. cbn [fst].
   conts. unfold model_add_mets. expl.
   destruct H0 as [A B C D E G H I J K].
@@ -607,13 +585,21 @@ Proof.
 Qed.
 
 (* ---------- every operation of the kernel other than leaving a context ---------- *)
-Definition op_ok (o : op) : Prop := match o with Imul _ c => c <> q0 | Exit => False | _ => True end.
+Definition in_univ (s : st) (o : op) : Prop :=
+  match o with
+  | NewRxn r _ _ st0 => forall m, In m (map fst st0) -> In m (mids s)
+  | AddRxn r => In r (rids s)
+  | AddSt _ l _ | SubSt _ l _ => forall m, In m (map fst l) -> In m (mids s)
+  | _ => True
+  end.
+Definition op_ok (s : st) (o : op) : Prop :=
+  in_univ s o /\ match o with Imul _ c => c <> q0 | Exit => False | _ => True end.
 
-Theorem step_Inv s o : Inv s -> op_ok o -> Inv (fst (step s o)).
+Theorem step_Inv s o : Inv s -> op_ok s o -> Inv (fst (step s o)).
 Proof.
-  intros HI Hok. destruct o; cbn [step op_ok] in *.
-  - exact (new_rxn_Inv s r l u st0 HI).
-  - cbn [fst]. apply add_rxn_Inv; [apply note_ids_Inv; exact HI|apply note_ids_rids; left; reflexivity].
+  intros HI [Hu Hok]. destruct o; cbn [step op_ok in_univ] in *.
+  - exact (new_rxn_Inv s r l u st0 HI Hu).
+  - cbn [fst]. apply add_rxn_Inv; assumption.
   - cbn [fst]. apply remove_rxn_Inv. exact HI.
   - apply (add_met_Inv s m HI).
   - cbn [fst]. destruct destructive; [apply remove_met_d_Inv|apply remove_met_nd_Inv]; exact HI.
@@ -621,8 +607,8 @@ Proof.
   - apply set_lb_Inv. exact HI.
   - apply set_ub_Inv. exact HI.
   - apply set_bounds_Inv. exact HI.
-  - apply add_st_Inv; [apply note_ids_Inv; exact HI|]. intros m Hm. apply note_ids_mids. exact Hm.
-  - apply add_st_Inv; [apply note_ids_Inv; exact HI|]. intros m Hm. apply note_ids_mids.
+  - apply add_st_Inv; assumption.
+  - apply add_st_Inv; [exact HI|]. intros m Hm. apply Hu.
     unfold touched, neg_list in Hm. rewrite map_map in Hm. cbn in Hm. exact Hm.
   - apply set_obj_Inv. exact HI.
   - destruct (rin s r); [apply set_obj_Inv|]; exact HI.
@@ -630,4 +616,126 @@ Proof.
   - cbn [fst]. apply imul_Inv; assumption.
   - cbn [fst]. apply Inv_ctx. exact HI.
   - contradiction.
+Qed.
+
+(* the identifier universe never changes *)
+Definition same_ids (a b : st) : Prop := rids a = rids b /\ mids a = mids b.
+Lemma same_ids_refl a : same_ids a a. Proof. split; reflexivity. Qed.
+Lemma same_ids_trans a b c : same_ids a b -> same_ids b c -> same_ids a c.
+Proof. intros [? ?] [? ?]. split; congruence. Qed.
+Lemma same_ids_record u s : same_ids (record u s) s.
+Proof. split; [apply rids_record|apply mids_record]. Qed.
+Lemma same_ids_record_all us s : same_ids (record_all us s) s.
+Proof. split; [apply rids_record_all|apply mids_record_all]. Qed.
+
+Ltac sid := repeat first
+  [ apply same_ids_refl
+  | eapply same_ids_trans; [apply same_ids_record|]
+  | eapply same_ids_trans; [apply same_ids_record_all|] ].
+
+Lemma raw_set_bounds_ids r l u s : same_ids (raw_set_bounds r l u s) s.
+Proof.
+  unfold raw_set_bounds, update_variable_bounds. cbn [rin set_lbub]. destruct (rin s r); [|split; reflexivity].
+  cbn [lb ub set_lbub]. destruct (split_bounds _ _) as [[? ?] [? ?]]. split; reflexivity.
+Qed.
+Lemma set_bounds_ids r l u s : same_ids (fst (set_bounds r l u s)) s.
+Proof.
+  unfold set_bounds. destruct (_ && _ && _); [sid|]. destruct (eb_gt l u); cbn [fst].
+  - destruct (rctx s r); sid.
+  - eapply same_ids_trans; [apply raw_set_bounds_ids|]. destruct (rctx s r); sid.
+Qed.
+Lemma set_lb_ids r l s : same_ids (fst (set_lb r l s)) s.
+Proof.
+  unfold set_lb. destruct (_ && _); [sid|]. destruct (eb_gt _ _); cbn [fst].
+  - destruct (rctx s r); sid.
+  - eapply same_ids_trans; [apply raw_set_bounds_ids|]. destruct (rctx s r); sid.
+Qed.
+Lemma set_ub_ids r u s : same_ids (fst (set_ub r u s)) s.
+Proof.
+  unfold set_ub. destruct (_ && _); [sid|]. destruct (eb_gt _ _); cbn [fst].
+  - destruct (rctx s r); sid.
+  - eapply same_ids_trans; [apply raw_set_bounds_ids|]. destruct (rctx s r); sid.
+Qed.
+Lemma set_obj_loop_ids l : forall s, same_ids (fst (set_obj_loop l s)) s.
+Proof.
+  induction l as [|[r c] l IH]; intros s; cbn [set_obj_loop]; [sid|].
+  destruct (rin s r); [|sid]. eapply same_ids_trans; [apply IH|]. split; reflexivity.
+Qed.
+Lemma set_obj_ids l a s : same_ids (fst (set_obj l a s)) s.
+Proof.
+  unfold set_obj. eapply same_ids_trans; [apply set_obj_loop_ids|].
+  destruct a; destruct (in_ctx s); sid; split; cbn; recs; reflexivity.
+Qed.
+Lemma add_st_ids r l c v s : same_ids (fst (add_st r l c v s)) s.
+Proof.
+  unfold add_st.
+  match goal with |- same_ids (fst (if ?cnd then _ else _)) _ => destruct cnd end; [destruct c|]; cbn [fst]; sid;
+    (destruct (rin s r); [unfold model_add_mets; split; cbn; recs; reflexivity|split; reflexivity]).
+Qed.
+Lemma populate_ids r s : same_ids (populate r s) s.
+Proof.
+  unfold populate, update_variable_bounds. destruct (rin s r); [|split; reflexivity].
+  destruct (split_bounds _ _) as [[? ?] [? ?]]. split; reflexivity.
+Qed.
+Lemma imul_ids r c s : same_ids (imul r c s) s.
+Proof.
+  unfold imul.
+  set (s1 := if qlt c q0 then _ else s).
+  assert (H1 : same_ids s1 s) by (unfold s1; destruct (qlt c q0); [apply set_bounds_ids|sid]).
+  match goal with |- same_ids (if rctx ?x r then _ else _) _ => assert (Hx : same_ids x s) end.
+  { cbn [rin set_sto]. destruct (rin s1 r); [eapply same_ids_trans; [apply populate_ids|]|]; 
+      (eapply same_ids_trans; [|exact H1]); split; reflexivity. }
+  destruct (rctx _ r); sid; exact Hx.
+Qed.
+Lemma add_rxn_ids r s : same_ids (add_rxn r s) s.
+Proof.
+  unfold add_rxn. destruct (rin s r); [sid|]. sid. unfold add_rxn_content.
+  destruct (split_bounds _ _) as [[? ?] [? ?]]. split; reflexivity.
+Qed.
+Lemma remove_rxn_ids r o s : same_ids (remove_rxn r o s) s.
+Proof. unfold remove_rxn. destruct (negb (rin s r)); sid. split; reflexivity. Qed.
+Lemma remove_met_nd_ids m s : same_ids (remove_met_nd m s) s.
+Proof. unfold remove_met_nd. destruct (negb (min s m)); sid. split; reflexivity. Qed.
+Lemma remove_met_d_ids m s : same_ids (remove_met_d m s) s.
+Proof. unfold remove_met_d. destruct (negb (min s m)); sid. split; reflexivity. Qed.
+
+Lemma run_undo_ids u s : same_ids (run_undo u s) s.
+Proof.
+  destruct u; cbn [run_undo]; try (split; reflexivity).
+  - destruct (eb_gt l u); [sid|apply raw_set_bounds_ids].
+  - destruct (eb_gt _ _); [sid|apply raw_set_bounds_ids].
+  - destruct (eb_gt _ _); [sid|apply raw_set_bounds_ids].
+  - apply add_st_ids.
+  - apply add_st_ids.
+  - destruct (rin s r); [apply populate_ids|sid].
+  - apply imul_ids.
+Qed.
+Lemma reset_ids h : forall s, same_ids (fold_left (fun a u => run_undo u a) h s) s.
+Proof.
+  induction h as [|u h IH]; intros s; cbn [fold_left]; [sid|].
+  eapply same_ids_trans; [apply IH|apply run_undo_ids].
+Qed.
+
+Lemma step_ids s o : same_ids (fst (step s o)) s.
+Proof.
+  destruct o; cbn [step].
+  - destruct (rin s r); [sid|]. split; reflexivity.
+  - apply add_rxn_ids.
+  - apply remove_rxn_ids.
+  - destruct (min s m); [sid|]. cbn [fst]. unfold model_add_mets. split; cbn; recs; reflexivity.
+  - destruct destructive; [apply remove_met_d_ids|apply remove_met_nd_ids].
+  - apply set_bounds_ids.
+  - apply set_lb_ids.
+  - apply set_ub_ids.
+  - apply set_bounds_ids.
+  - apply add_st_ids.
+  - apply add_st_ids.
+  - apply set_obj_ids.
+  - destruct (rin s r); [apply set_obj_ids|sid].
+  - unfold set_dir. cbn [fst]. destruct (_ && _); [sid|]. destruct (in_ctx s); [|split; reflexivity].
+    split; cbn; recs; reflexivity.
+  - apply imul_ids.
+  - split; reflexivity.
+  - unfold exit_ctx. destruct (ctx s) as [|h rest]; [sid|]. cbn [fst].
+    destruct (reset_ids h (set_ctx s [])) as [X Y]. split; cbn; [rewrite X|rewrite Y]; reflexivity.
 Qed.
